@@ -71,6 +71,15 @@ def gen_quad(rng):
     return fam, QuadraticBezier(a, m + P(rng.uniform(-3, 3), rng.uniform(-3, 3)), b)
 
 
+def line_class(l, t, fails):
+    """known class: the query point is within 1e-9 (in t) of an END of the line and the only failure is a returned
+    parameter that leaves [0,1] by at most 1e-9 (rounding of the point before the end, inverted faithfully)"""
+    if len(fails) == 1 and 'is not in [0,1]' in fails[0] and (t <= 1e-9 or t >= 1 - 1e-9):
+        tau = l.tOfPoint(l.pointAtTime(t))
+        if -1e-9 <= tau < 0 or 1 < tau <= 1 + 1e-9: return 'C15-line-end-rounding'
+    return 'C15-line'
+
+
 def check_quad(q, t):
     cps = [(p.x, p.y) for p in q.points]
     for k in (0, 1):
@@ -128,7 +137,7 @@ def search(ctx):
         if f is None: continue
         ev += 1; dist['line/' + fam] = dist.get('line/' + fam, 0) + 1; seen.add((gen.seg_key(l), t))
         if len(samples) < 1: samples.append({'segment': gen.seg_json(l), 't': t})
-        if f: fails.append({'class': 'C15-line', 'what': f[0], 'input': {'kind': 'line', 'segment': gen.seg_json(l), 't': t, 'off': off}, 'observed': f, 'expected': 'C15 line clauses'})
+        if f: fails.append({'class': line_class(l, t, f), 'what': f[0], 'input': {'kind': 'line', 'segment': gen.seg_json(l), 't': t, 'off': off}, 'observed': f, 'expected': 'C15 line clauses'})
     for _ in range(ctx.n(500, 12000)):
         fam, q = gen_quad(rng); t = gen.tvalue(rng)
         f = check_quad(q, t)
